@@ -23,14 +23,14 @@ pub fn committee_of(stakes: &[Stake]) -> Committee {
 }
 
 fn check_quorum<const K: usize>() {
-    let stakes: [Stake; K] = kani::any();
+    let stakes: [Stake; K] = vwit::any_u32s::<K>();
     let mut n: u64 = 0;
     let mut i = 0;
     while i < K {
         n += stakes[i] as u64;
         i += 1;
     }
-    kani::assume(n >= 1 && n < (1u64 << 31));
+    vwit::assume(n >= 1 && n < (1u64 << 31));
     let c = committee_of(&stakes);
     let q = c.quorum_threshold() as u64;
     let f = (n - 1) / 3;
@@ -41,16 +41,16 @@ fn check_quorum<const K: usize>() {
     // honest authorities alone can form a quorum
     assert!(n - f >= q);
     // stake lookup: member -> its stake; unknown -> 0
-    let who: u8 = kani::any();
-    kani::assume((who as usize) < K + 2);
+    let who: u8 = vwit::any_u8();
+    vwit::assume((who as usize) < K + 2);
     let s = c.stake(&key(who));
     if (who as usize) < K {
         assert!(s == stakes[who as usize]);
     } else {
         assert!(s == 0);
     }
-    kani::cover!(n == 4 && q == 3);
-    kani::cover!(n > 1_000_000_000);
+    vwit::cover!(n == 4 && q == 3);
+    vwit::cover!(n > 1_000_000_000);
     std::mem::forget(c);
 }
 
@@ -75,14 +75,14 @@ fn c17_quorum_k7() { check_quorum::<7>() }
 
 /// consensus and mempool committees built from the same stakes agree on the threshold and on stake().
 fn check_same<const K: usize>() {
-    let stakes: [Stake; K] = kani::any();
+    let stakes: [Stake; K] = vwit::any_u32s::<K>();
     let mut n: u64 = 0;
     let mut i = 0;
     while i < K {
         n += stakes[i] as u64;
         i += 1;
     }
-    kani::assume(n >= 1 && n < (1u64 << 31));
+    vwit::assume(n >= 1 && n < (1u64 << 31));
     let c = committee_of(&stakes);
     let mut m = kcoll::HashMap::default();
     let mut i = 0;
@@ -96,10 +96,10 @@ fn check_same<const K: usize>() {
     m.n = K;
     let mc = mempool::Committee { authorities: m, epoch: 1 };
     assert!(c.quorum_threshold() == mc.quorum_threshold());
-    let who: u8 = kani::any();
-    kani::assume((who as usize) < K + 2);
+    let who: u8 = vwit::any_u8();
+    vwit::assume((who as usize) < K + 2);
     assert!(c.stake(&key(who)) == mc.stake(&key(who)));
-    kani::cover!(c.quorum_threshold() == 3);
+    vwit::cover!(c.quorum_threshold() == 3);
     std::mem::forget(c);
     std::mem::forget(mc);
 }
